@@ -52,6 +52,14 @@ type Descriptor struct {
 	// VoidReturn indicates if the constructor has no valid return values
 	VoidReturn bool
 
+	// siblings lists every descriptor registered by the same Add call (result object
+	// fields, multiple returns, several As aliases), including this one, in output order.
+	// One constructor invocation serves all of them.
+	siblings []*Descriptor
+
+	// resultFieldIndex is the index of the result object field this descriptor stands for
+	resultFieldIndex int
+
 	// Analysis results cached for performance
 	isFunc         bool
 	isResultObject bool
